@@ -59,7 +59,7 @@ STUBS = ["int / float / math.floor / math.ceil (as seen from the modules under t
     "hash() of threshold proxies enabled for RangeSelector._compile_lookup (dict is only iterated)",
 ]
 ASSUMPTIONS = [
-    "pool supply >= 0, interval >= 0, all values finite reals",
+    "pool supply >= 0, interval >= 0, all values finite reals; utilisation and allocation of the linear and relative-supply harnesses may also be nan (a concrete nan selected by a symbolic flag)",
     "constructor assertions are active (no python -O)",
     "rules do not modify the pool (documented)",
 ]
@@ -86,6 +86,15 @@ def _restate(ctx, p, sfx):
     ctx.assume(p.supply >= 0)
 
 
+def _maybe_nan(ctx, p, sfx):
+    """a pool may report nan for utilisation/allocation (0/0 of an empty pool): nan is neither below nor above
+    anything, so neither condition holds.  The nan is a concrete float chosen by a symbolic flag."""
+    if ctx.flag("util_is_nan" + sfx):
+        p.utilisation = float("nan")
+    if ctx.flag("alloc_is_nan" + sfx):
+        p.allocation = float("nan")
+
+
 # -- LinearController -----------------------------------------------------------------------------
 def linear(ctx, steps=1):
     p = _pool(ctx)
@@ -97,6 +106,7 @@ def linear(ctx, steps=1):
         tag = "step%d: " % k
         if k:
             _restate(ctx, p, "_%d" % k)
+        _maybe_nan(ctx, p, "_%d" % k)
         ival = ctx.num("interval_%d" % k)
         ctx.assume(ival >= 0)
         old, n0 = p.demand, len(p.writes)
@@ -154,6 +164,7 @@ def relative(ctx, steps=1):
         tag = "step%d: " % k
         if k:
             _restate(ctx, p, "_%d" % k)
+        _maybe_nan(ctx, p, "_%d" % k)
         ival = ctx.num("interval_%d" % k)
         ctx.assume(ival >= 0)
         n0 = len(p.writes)
